@@ -27,10 +27,12 @@ THEOREMS = [
     'Wq.dget_environ_plain', 'Wq.hdr_agree', 'Wq.decodeStrict_replace', 'Wq.decodeStrict_ascii', 'Wq.latin1Enc_latin1', 'Wq.latin1_encode_ascii',
     'Wq.pyInt_natStr', 'Wq.natStr_inj',
     # the exclusions of the domain are exact (iff) ...
-    'Wq.method_agree_iff', 'Wq.query_string_agree_iff', 'Wq.decodeStrict_latin1_iff', 'Wq.root_path_agree_iff',
+    'Wq.method_agree_iff', 'Wq.query_string_agree_iff', 'Wq.decodeStrict_latin1_iff', 'Wq.root_path_agree_iff', 'Wq.access_route_agree_iff', 'Wq.remote_addr_agree_iff',
+    # regression witness for the repaired finding F36 (fix 9e26a7e): the old `except KeyError` raised TypeError on scope["client"] = None
+    'Wq.client_none_regression_witness',
     # ... or at least necessary (witnesses by evaluation)
     'Wq.method_case_witness', 'Wq.scheme_port_witness', 'Wq.scheme_netloc_witness', 'Wq.raw_query_witness', 'Wq.raw_query_raises_witness', 'Wq.root_path_witness',
-    'Wq.empty_client_witness', 'Wq.client_none_witness', 'Wq.server_missing_witness', 'Wq.repeated_host_witness', 'Wq.underscore_route_witness',
+    'Wq.empty_client_witness', 'Wq.server_missing_witness', 'Wq.repeated_host_witness', 'Wq.underscore_route_witness',
     'Wq.strict_server_witness',
 ]
 STATEMENTS = {
@@ -57,8 +59,8 @@ STATEMENTS = {
     'Wr.non_ascii_lookup_name_witness': 'for the well-formed request SS: 1, get_header("\\xdf") is "1" on WSGI ("\\xdf".upper() == "SS") and None on ASGI',
     'Wq.request_view_agree': 'for every wire request (method token, raw request-target bytes, scheme, server name/port, client address or none, mount point, field lines) of the domain wfConn - ASCII request-target '
                              '(arbitrary bytes percent-encoded, also ones that decode to invalid UTF-8), upper-case method, scheme http or https, ASCII mount point, non-empty client address if any, header names ASCII without "_" '
-                             'and no repeated singleton header, the ASGI server tells its own address and reports an unknown client by omission - for every liberty the two specifications leave to the servers '
-                             '(SCRIPT_NAME / QUERY_STRING left out when empty, scope root_path left out when empty, scope scheme left out when "http") and all eight settings of strip_url_path_trailing_slash / '
+                             'and no repeated singleton header, the ASGI server tells its own address - for every liberty the two specifications leave to the servers '
+                             '(SCRIPT_NAME / QUERY_STRING left out when empty, scope root_path left out when empty, scope scheme left out when "http", an unknown client reported by omission or as None) and all eight settings of strip_url_path_trailing_slash / '
                              'keep_blank_qs_values / auto_parse_qs_csv: method, path, query_string, params, root_path (= app), scheme, host, port, netloc, remote_addr and access_route of '
                              'falcon.Request(environ built by a PEP 3333 server) and falcon.asgi.Request(scope built by an ASGI server) are the same values, or both raise HTTPInvalidHeader (Host)',
     'Wq.path_agree': 'WITHOUT any hypothesis - every raw request-target (any bytes, any well- or ill-formed percent-escapes, escapes that decode to invalid UTF-8), both values of strip_url_path_trailing_slash, every server liberty: '
@@ -78,7 +80,7 @@ STATEMENTS = {
     'Wq.host_agree': 'req.host: parse_host(Host) / HTTPInvalidHeader, else SERVER_NAME = scope["server"][0]',
     'Wq.port_agree': 'req.port: the port in Host, else 80/443 by scheme (WSGI tests scheme == "http", ASGI scheme in (https, wss): the same on http/https), else int(SERVER_PORT) = scope["server"][1] (int(str(p)) = p)',
     'Wq.netloc_agree': 'req.netloc: Host verbatim, else name[:port] with the default port left out - WSGI compares the decimal string with "443"/"80", ASGI the int with 443/80 (str is injective on naturals)',
-    'Wq.remote_addr_agree': 'req.remote_addr: REMOTE_ADDR (default 127.0.0.1) = the last element of the ASGI access_route (scope["client"][0], default 127.0.0.1), whatever forwarding headers are present',
+    'Wq.remote_addr_agree': 'req.remote_addr: REMOTE_ADDR (default 127.0.0.1) = the last element of the ASGI access_route (scope["client"][0]; 127.0.0.1 when the key is missing OR None), whatever forwarding headers are present',
     'Wq.access_route_agree': 'req.access_route: the same header-derived route (Forwarded / X-Forwarded-For / X-Real-IP: Fw.accessRoute of C09 on the same raw header values) completed with the same client address',
     'Wq.hdr_agree': 'for every header list of the Wr domain and every ASCII "_"-free name: environ[HTTP_<NAME>] and _asgi_headers[name.lower()] are both absent or hold the same value',
     'Wq.dget_environ_plain': 'a CGI / wsgi.* key of the PEP 3333 environ is read from its fixed part, whatever the header lines are (no header can shadow REQUEST_METHOD, PATH_INFO, ...)',
@@ -89,7 +91,11 @@ STATEMENTS = {
     'Wq.raw_query_raises_witness': 'raw query byte FF: falcon.asgi.Request() raises UnicodeDecodeError, falcon.Request() does not',
     'Wq.root_path_witness': 'mount point "/\\xe9": root_path "/\\xc3\\xa9" on WSGI, "/\\xe9" on ASGI',
     'Wq.empty_client_witness': 'client address "": remote_addr "" / access_route [""] on WSGI, IndexError / [] on ASGI',
-    'Wq.client_none_witness': 'scope["client"] = None (the default of the spec, sent explicitly): remote_addr / access_route raise TypeError on ASGI; 127.0.0.1 when the key is missing and on WSGI',
+    'Wq.client_none_regression_witness': 'regression witness for F36 (fixed by 9e26a7e): with scope["client"] = None the code before the fix (except KeyError only) raised TypeError from remote_addr / access_route '
+                                         'where WSGI answers 127.0.0.1; the repaired code answers 127.0.0.1 like for a missing key and the request is inside the domain',
+    'Wq.access_route_agree_iff': 'the exact remaining condition (on the header domain): the two access routes are equal IF AND ONLY IF the client address is non-empty or the forwarding headers contribute at least one entry '
+                                 '(the ASGI "[client] if client else []" shows only when both are empty) - in particular for every unknown client, whether the server leaves "client" out or sends None',
+    'Wq.remote_addr_agree_iff': 'the same condition is exact for remote_addr (with an empty client address and no forwarding header the ASGI route[-1] is an IndexError, WSGI answers "")',
     'Wq.server_missing_witness': 'scope without "server" (or None), no Host header: ASGI host/port/netloc are localhost / 80 / "localhost", WSGI answers SERVER_NAME / SERVER_PORT',
     'Wq.repeated_host_witness': 'Host: a + host: b:81 - host "a,b" / netloc "a,b:81" on WSGI, "b" / "b:81" on ASGI',
     'Wq.underscore_route_witness': 'X_Forwarded_For: 7.7.7.7 - access_route [7.7.7.7, 127.0.0.1] on WSGI, [127.0.0.1] on ASGI',
@@ -105,7 +111,7 @@ ASSUMPTIONS = [
     'domain of "the same HTTP request": ASCII request-target with RFC 3986 characters (arbitrary path bytes only percent-encoded), header names are tokens without "_", values latin-1 without surrounding whitespace, singleton headers (Content-Length, Content-Type, Cookie, Expect, From, Host, Max-Forwards, Referer, User-Agent) not repeated, a non-empty body is framed by a matching Content-Length',
     'request line / connection (Wq.wfConn): additionally an upper-case method token (ASGI upper-cases, WSGI does not), scheme http or https (the "http" connection scope), an ASCII mount point, a non-empty client address when the client is known; '
     'the ASGI server percent-decodes the path and decodes it as UTF-8 LENIENTLY (U+FFFD per maximal invalid subpart: lib_http, and uvicorn / hypercorn / daphne through urllib.parse.unquote) - a strict server answers 400 itself and is covered by '
-    'Wq.strict_server_path_agree; it puts its own address into scope["server"] and reports an unknown client by leaving "client" out. Each exclusion has a machine-checked witness that it is necessary',
+    'Wq.strict_server_path_agree; it puts its own address into scope["server"] (an unknown client may be reported by leaving "client" out or as None: no restriction since fix 9e26a7e / F36). Each exclusion has a machine-checked witness that it is necessary',
     'documented per-interface differences are normalised away: req.headers key case (compared lower-cased), chunk boundaries of body iteration (bytes compared), header order / name case of the response (compared as multiset of lower-cased pairs), reason phrase (ASGI carries only the code)',
     'requests that wsgiref.validate refuses before calling the app (malformed Content-Length) cannot be expressed through falcon.testing on WSGI and are compared on the other three paths only',
     '204/304 responses that carry a Content-Type (set by the application, or the F16 class) make wsgiref.validate inside falcon.testing raise on WSGI; they are compared on the other three paths only (C05 reports F16)',
@@ -129,8 +135,8 @@ RULE = ('random wire-level requests: method x path from 0-4 segments (plain, per
         'point by the same rules on bytes: Latin-1 tunnel / bytes), falcon.Request / falcon.asgi.Request constructed directly, 11 attributes (+ app == root_path) read from each; non-trivial = an escape in the target, a query, or no Host')
 PARTIAL = ('The Lean theorems cover the response side (finalization of any response state is identical on both stacks) and, on the request side, (1) the header stores: get_header, headers / headers_lower, '
            'content_type, content_length agree for every header list of the domain (Wr.*), and (2) the request line and the connection: method, path, query_string, params, root_path / app, scheme, host, port, netloc, '
-           'remote_addr, access_route agree for every wire request of the domain and every liberty of the servers (Wq.request_view_agree; path and scheme without any hypothesis; the method / query / mount-point exclusions '
-           'proved exact, the others necessary). The remaining request attributes (uri / url / relative_uri / prefix and the forwarded_* family, subdomain, typed header accessors, cookies, body, media), the http_version '
+           'remote_addr, access_route agree for every wire request of the domain and every liberty of the servers, incl. scope["client"] = None (Wq.request_view_agree; path and scheme without any hypothesis; the method / query / mount-point / '
+           'client-address exclusions proved exact, the others necessary). The remaining request attributes (uri / url / relative_uri / prefix and the forwarded_* family, subdomain, typed header accessors, cookies, body, media), the http_version '
            '(no Request attribute on either stack; only falcon.asgi.App validates scope["http_version"]) and the equivalence of falcon.testing.simulate_request with the spec-faithful drivers rest on the differential '
            'comparison only (translation-validation strength, not proof).')
 JOBS = {'quick': 4, 'thorough': 16}
@@ -931,7 +937,7 @@ def target_part(ctx, rnd, falcon, H, json):
         # ---- the property itself, inside its domain
         lows = [n.lower() for n, _ in headers]
         in_domain = (ascii_target and method == method.upper() and scheme in ('http', 'https') and (client is None or client[0] != '') and root.isascii()
-                     and lib['server_key'] == 'g' and not (client is None and lib['client_None'])
+                     and lib['server_key'] == 'g'
                      and all('_' not in n for n, _ in headers) and all(lows.count(x) <= 1 for x in SINGLETONS))
         if in_domain:
             bad = [f'{NAMES[i]}: WSGI {pretty(wobs[i])} vs ASGI {pretty(aobs[i])}' for i in range(min(len(wobs), len(aobs))) if wobs[i] != aobs[i]]
@@ -940,7 +946,7 @@ def target_part(ctx, rnd, falcon, H, json):
             ctx.oracle(ORACLE, not bad, '; '.join(bad) or None, case)
             ctx.count('tgt_case_in_domain')
         else:
-            ctx.count('tgt_case_outside_domain(raw non-ASCII target byte, lower-case method, scheme not http/https, empty client address, client None, '
+            ctx.count('tgt_case_outside_domain(raw non-ASCII target byte, lower-case method, scheme not http/https, empty client address, '
                       'server key missing, non-ASCII mount point, "_" name or repeated Host: model predicts the difference)')
         if b'%' in path_b:
             ctx.count('tgt_path_with_percent_escape')
@@ -948,6 +954,8 @@ def target_part(ctx, rnd, falcon, H, json):
             H.pct_decode(path_b.decode('latin-1')).decode('utf-8')
         except UnicodeDecodeError:
             ctx.count('tgt_path_decodes_to_invalid_utf8')
+        if client is None and lib['client_None']:
+            ctx.count('tgt_scope_client_is_None' + ('(in domain: the stacks must agree)' if in_domain else ''))
         if not any(n == 'host' for n in lows):
             ctx.count('tgt_without_Host_header')
         ctx.seen(json.dumps(['tgt', case], sort_keys=True, default=repr), b'%' in target or bool(query_b) or 'host' not in lows)
